@@ -565,6 +565,48 @@ func unknownNames(r *rng.R) []string {
 			out = append(out, string(c))
 		}
 	}
+	// code points whose case mappings leave ASCII or change the encoded length (Kelvin sign -> k, long s -> S,
+	// dotted/dotless i, Angstrom, Ohm, capital sharp s, Latin Extended-C capitals, and two that GROW when lowered):
+	// whatever a lookup does with case (ToLower, ToUpper, EqualFold, suggestions by edit distance), these are where
+	// byte counts and rune counts part ways. Substituted for their look-alike letter where the name has one, and
+	// replacing / appended to a random letter otherwise.
+	specials := []struct {
+		r     rune
+		alike string
+	}{{0x212A, "Kk"}, {0x017F, "Ss"}, {0x0130, "Ii"}, {0x0131, "Ii"}, {0x212B, "Aa"}, {0x2126, "Oo"}, {0x1E9E, "Ss"}, {0x00DF, "Ss"}, {0x2C62, "Ll"}, {0x2C64, "Rr"},
+		{0x2C6D, "Aa"}, {0x2C6E, "Mm"}, {0x2C6F, "Aa"}, {0x2C70, "Oo"}, {0x2C7E, "Ss"}, {0x2C7F, "Zz"}, {0x023A, "Aa"}, {0x023E, "Tt"}, {0x01C5, "Dd"}, {0x1F88, "Aa"}, {0xFB01, "fi"}, {0x0149, "n"}}
+	for _, n := range pinnedOps {
+		rs := []rune(n)
+		for _, sp := range specials {
+			hit := false
+			for i, c := range rs {
+				if strings.ContainsRune(sp.alike, c) {
+					d := append([]rune{}, rs...)
+					d[i] = sp.r
+					out = append(out, string(d))
+					hit = true
+					break
+				}
+			}
+			if !hit || r.Chance(1, 3) {
+				d := append([]rune{}, rs...)
+				switch i := r.Intn(len(d)); r.Intn(3) {
+				case 0:
+					d[i] = sp.r
+				case 1:
+					d = append(d, sp.r)
+				default:
+					d = append([]rune{sp.r}, d...)
+				}
+				out = append(out, string(d))
+			}
+		}
+	}
+	for _, sp := range specials {
+		for _, k := range []int{1, 2, 3, 4, 6} {
+			out = append(out, strings.Repeat(string(sp.r), k))
+		}
+	}
 	var keep []string
 	for _, s := range out {
 		if !implemented[s] && validUTF8(s) {
